@@ -18,6 +18,16 @@ inline std::size_t dangling() {
     Holder h(std::string("temporary"));   // R07b
     return h.name.size();
 }
+inline std::size_t reused_scratch(std::size_t n) {
+    static std::vector<int> scratch;      // R07g positive: shared by all calls
+    scratch.resize(n);
+    return scratch.size();
+}
+inline std::size_t wrapped_reserve(const std::vector<int> &v) {
+    std::vector<int> out;
+    out.reserve(v.size() - 1);            // R07h positive: wraps for an empty input
+    return out.capacity();
+}
 inline int past_end(const std::vector<int> &v) {
     return *(v.end());                    // R07d
 }
@@ -33,4 +43,4 @@ inline int bidirectional_signed_dijkstra(const fake_frontier &other, int c, int 
     return c + other.get_dist(w);
 }
 }
-int use_c07() { parmcb::fake_frontier ff = {{0, 1, 2, 3}}; return parmcb::bidirectional_signed_dijkstra(ff, 1, 2) + (int) positive::dangling() + positive::dangling2("x") + positive::past_end(std::vector<int>()); }
+int use_c07() { parmcb::fake_frontier ff = {{0, 1, 2, 3}}; return parmcb::bidirectional_signed_dijkstra(ff, 1, 2) + (int) positive::wrapped_reserve(std::vector<int>()) + (int) positive::reused_scratch(3) + (int) positive::dangling() + positive::dangling2("x") + positive::past_end(std::vector<int>()); }
